@@ -170,7 +170,7 @@ def text_model(ctx, quick):
                   ('utf-32-le', 'client', [(0, [4]), (1, [4])], 3),
                   ('utf-16-le', 'server', [(0, [4, 2]), (0, [2])], 3),
                   ('utf-8', 'server', [(0, [2, 3, 4])], 2)]
-    budget = 260 if quick else 2500
+    budget = 180 if quick else 2500
     for ci, (enc, role, writes, pkt) in enumerate(cases):
         res, scripts = _text_tlc(f'c07_tx_gen{ci}', writes, pkt,
                                  False, True, emit=True)
@@ -214,7 +214,7 @@ def text_model(ctx, quick):
         chars = T.flatten(writes)
         exp = T.expected(chars, enc)
         total = sum(w for _, w in chars)
-        for pkt in range(1, 6):
+        for pkt in ((1, 2, 4) if quick else range(1, 6)):
             res, scripts = _text_tlc(f'c07_tx_snd{ci}_{pkt}', writes, pkt,
                                      True, False, emit=True)
             ctx.require_tlc_ok(f'Text fifo scripts {writes} pkt={pkt}', res)
@@ -319,6 +319,75 @@ def editor_sweep(ctx, quick):
                                 'lens': list(lens)})
 
 
+def close_while_paused(ctx, quick):
+    """Data buffered while the receiving session has paused reading must
+    still be delivered when the peer closes the channel in the meantime:
+    fixed schedules (both directions, 1-3 chunks, with and without EOF,
+    paused before / between the chunks) plus Lifecycle behaviours with data,
+    judged by the DataBeforeClose monitor (a session is told connection_lost
+    only after it has been given every byte its peer wrote before a graceful
+    close)."""
+    import os
+    from harness import tlc
+    from harness.framework import VERIF
+    from harness.drivers import lifecycle
+    for x in 'cs':
+        for n in (1, 2, 3):
+            for eof in (False, True):
+                for when in ('before', 'between'):
+                    bad, log = lifecycle.paused_close_case(x, n, eof, when)
+                    ctx.count(('paused-close', x, n, eof, when),
+                              nontrivial=True)
+                    bad = [b for b in bad if b.startswith(
+                        ('DataBeforeClose', 'CloseOnceAndLast'))]
+                    if bad:
+                        ctx.violation(
+                            {'module': 'Lifecycle', 'clause':
+                             'DataBeforeClose', 'sender': x},
+                            f'C07 close while paused (sender {x}, {n} chunks, '
+                            f'eof={eof}, paused {when}): ' + '; '.join(bad[:2]),
+                            replay={'kind': 'paused-close', 'sender': x,
+                                    'n': n, 'eof': eof, 'when': when})
+    # Lifecycle behaviours with data (the spec C09 checks), judged here for
+    # completeness of the data only
+    spec = os.path.join(VERIF, 'specs', 'Lifecycle')
+    consts = dict(Chans='{1}', Reject='{}', MaxOps=7, Cuts=0,
+                  ConnOps='FALSE', WithData='TRUE', FailReqOnClose='TRUE',
+                  ResolveOnConnCleanup='TRUE')
+    lines = ['CONSTANTS'] + [f'  {k} = {v}' for k, v in consts.items()]
+    lines += ['SPECIFICATION Spec', 'CHECK_DEADLOCK FALSE']
+    cfg = f'_c07_lc_{os.getpid()}.cfg'
+    with open(os.path.join(spec, cfg), 'w') as f:
+        f.write('\n'.join(lines) + '\n')
+    tag = f'c07_lc_{os.getpid()}'
+    out = tlc.workdir(tag + '_out')
+    try:
+        res = tlc.run(spec, 'Lifecycle', cfg, tag, workers=4, timeout=600,
+                      simulate=f'file={out}/tr,num={12 if quick else 200}',
+                      depth=60, seed=ctx.seed + 71)
+        ctx.require(not res.error or res.error == 'timeout',
+                    f'Lifecycle simulate: {res.error}')
+        traces = [[(st['lbl'], st) for _, st in steps[1:]]
+                  for _, steps in tlc.read_sim_traces(out, 'tr_')]
+    finally:
+        tlc.cleanup(tag + '_out')
+        tlc.cleanup(tag)
+        os.remove(os.path.join(spec, cfg))
+    ctx.require(traces, 'no Lifecycle behaviours with data')
+    for steps in traces:
+        if len(steps) < 3:
+            continue
+        r = lifecycle.replay(steps, [1], [])
+        ctx.count(('lifecycle-data', tuple(map(str, r['script']))),
+                  nontrivial=any(l[0] == 'wdata' for l in r['script']))
+        bad = [b for b in r['l1'] if b.startswith('DataBeforeClose')]
+        if bad:
+            ctx.violation({'module': 'Lifecycle', 'clause': 'DataBeforeClose'},
+                          'C07 ' + '; '.join(bad[:2]),
+                          replay={'kind': 'lifecycle-data',
+                                  'script': r['script']})
+
+
 def main(ctx):
     quick = ctx.tier == 'quick'
     # ---- design check ----
@@ -351,6 +420,7 @@ def main(ctx):
     text_sweep(ctx, quick)
     text_model(ctx, quick)
     editor_sweep(ctx, quick)
+    close_while_paused(ctx, quick)
     ctx.assumptions += [
         'one data unit of the model = one byte (x1) or 1024 bytes (x1k)',
         'writer = server session channel, reader = client session channel; '
